@@ -353,6 +353,22 @@ func TestCheck(t *testing.T) {
 	})
 	r.Sampled()
 
+	// Phase W: texts that programs conventionally treat specially ("null", "nil", "", "0", "N", ...) through every entry point.
+	r.Phase(fmt.Sprintf("W: %d conventional special texts (null, nil, none, 0, nulla, ...) x rules x limits through every entry point", len(ref.ConventionalTexts)), func() {
+		for _, lim := range []int{0, -1, 4} {
+			restore := setLimit(lim)
+			r.Serial(func(w *vkit.W) {
+				for _, text := range ref.ConventionalTexts {
+					for _, rule := range rules {
+						judge(Case{Text: vkit.B(text), Rule: rule, Limit: lim}, w)
+						w.EvalRandom(vkit.Hash64("W", text, strconv.Itoa(rule), strconv.Itoa(lim)), true)
+					}
+				}
+			})
+			restore()
+		}
+	})
+
 	// Phase C: rapid - numerals of larger numbers with random flags and case, optionally edited (shrinks to a minimal text).
 	r.Phase("C: rapid numerals with edits", func() {
 		r.Rapid(t, "rapid-numerals", 0, r.Pick(20000, 500000), func(rt *rapid.T, w *vkit.W) vkit.RapidCase {
